@@ -575,7 +575,44 @@ def fam_conv_large(rng, n, tier, mode="exact"):
     return cases
 
 
-FAMILIES_LATE = {"conv_large": fam_conv_large}
+def fam_matmul_large(rng, n, tier, mode="exact"):
+    """C05 at sizes where evaluating the whole model is out of reach: single elements of the implementation's
+    whole product against `matmulElem` (= indexing the model's matmul, C05_matmulat).  Products of 2^12 .. 2^24
+    multiply-adds, all four flag combinations, batched and broadcast leading dimensions, with and without a bias."""
+    cases = []
+    #          la     lb     m    k    n
+    configs = [([], [], 17, 33, 9), ([2], [], 40, 64, 31), ([], [3], 65, 70, 50), ([2], [2], 128, 130, 64),
+               ([], [], 300, 257, 200), ([2, 1], [1, 2], 90, 100, 110), ([], [], 1030, 260, 70)]
+    if tier == "thorough":
+        configs += [([], [], 700, 600, 500), ([4], [1], 256, 300, 200)]
+    for (la, lb, m, k, nn) in configs:
+        for (ta, tb) in ((False, False), (True, False), (False, True), (True, True)):
+            for bias in (False, True):
+                if bias and (ta != tb):
+                    continue
+                ad = la + ([k, m] if ta else [m, k])
+                bd = lb + ([nn, k] if tb else [k, nn])
+                L = ["new a %s %s" % (dims_s(ad), vals_s([rng.randint(-2, 2) for _ in range(prod(ad))], mode)),
+                     "new b %s %s" % (dims_s(bd), vals_s([rng.randint(-2, 2) for _ in range(prod(bd))], mode))]
+                if bias:
+                    L.append("new c %d %s" % (nn, vals_s([rng.randint(-3, 3) for _ in range(nn)], mode)))
+                if rng.random() < 0.3:
+                    L += ["tracked a", "tracked b"]
+                lead = compat(la, lb) if (la or lb) else []
+                picks = set()
+                for bidx in itertools.product(*[range(d) for d in lead]):
+                    for (r, j) in ((0, 0), (m - 1, nn - 1), (0, nn - 1), (m - 1, 0)):
+                        picks.add(tuple(bidx) + (r, j))
+                while len(picks) < 4 * max(1, prod(lead)) + 4:
+                    picks.add(tuple(rng.randrange(d) for d in lead) + (rng.randrange(m), rng.randrange(nn)))
+                for pk in sorted(picks):
+                    L.append("matmulat a %s b %s %s %s" % ("T" if ta else "N", "T" if tb else "N", "c" if bias else "-", dims_s(pk)))
+                work = max(1, prod(lead)) * m * k * nn
+                cases.append(Case(L, ("mmlarge", tuple(ad), tuple(bd), ta, tb, bias), ["large", "madds>=2^%d" % (work.bit_length() - 1)], mode))
+    return cases
+
+
+FAMILIES_LATE = {"conv_large": fam_conv_large, "matmul_large": fam_matmul_large}
 
 # ---------------------------------------------------------------- family: reduce-map (C07)
 
